@@ -9,6 +9,7 @@ import tempfile
 import warnings
 from collections import OrderedDict
 
+from . import core
 from .query_replay import L, NOMAX, forest_of
 
 BOOKKEEPING = re.compile(r"^_\w*NodeMixin__")      # name-mangled private attributes of the mixins
@@ -631,6 +632,7 @@ def worker_init(repo, assertions=False):
     from . import nodes  # noqa
 
 
+@core.safe_worker
 def replay_chunk(args):
     lines, base = args
     out = {"n": 0, "vectors": 0, "attention": [], "dropped": 0, "known": {}, "known_witness": {}}
